@@ -1,5 +1,6 @@
 import Thanos.Common.Parse
 import Thanos.Model.CacheKeys
+import Thanos.Model.BucketKey
 import Thanos.Model.PostingsCodec
 import Thanos.Model.CachingBucket
 import Thanos.Model.CachingBucketOps
@@ -254,12 +255,7 @@ end C12
 
 /-! ### C14 -/
 section C14
-open Thanos.CachingBucket
-
-structure CBState where
-  oc : OpsCache                   -- entries for the object "obj" (attrs is shared with GetRange)
-  mc : OpsCache                   -- entries for the absent object "nope"
-  subs : List (Nat × Nat)         -- stored subrange keys
+open Thanos.CachingBucket Thanos.CacheKeys
 
 def patAt (pat : List Char) (i : Nat) : Char := pat.getD (i % pat.length) '0'
 
@@ -269,41 +265,6 @@ def sortPairs (l : List (Nat × Nat)) : List (Nat × Nat) :=
 def showPairs (sep : String) (l : List (Nat × Nat)) : String :=
   joinWith "," ((sortPairs l).map fun (a, b) => s!"{a}{sep}{b}")
 
-/-- one GetRange of the history -/
-def cbRead (guard : Bool) (obj : Bytes) (S maxSub p : Nat) (st : CBState) (off len : Nat)
-    (attrPat subPat : List Char) : String × CBState :=
-  -- cachedAttributes
-  let c := patAt attrPat 0
-  let attrHit := st.oc.attrs.isSome && c == '0'
-  let st := { st with oc := { st.oc with attrs := some obj.length } }   -- still stored, or fetched and stored again
-  let size := obj.length
-  -- which subrange keys the cache returns, in the order the keys are requested
-  let endPos := min (off + len) size
-  let startRange := (off / S) * S
-  let endRange := (endPos / S) * S + (if endPos % S > 0 then S else 0)
-  let passThrough := guard && off ≥ size
-  let offs := if passThrough then [] else offsets S startRange endRange
-  let keyed := offs.zipIdx.map fun (o, i) => ((o, min (o + S) size), patAt subPat i)
-  let hitKeys := (keyed.filter fun (k, c) => c == '0' && st.subs.contains k).map (·.1)
-  let evicted := (keyed.filter fun (_, c) => c == '2').map (·.1)
-  let subs := st.subs.filter fun k => !evicted.contains k
-  let cache := fun (a b : Nat) => if hitKeys.contains (a, b) then some (slice obj a b) else none
-  let r := getRange guard obj S maxSub cache p off len
-  let out := match r.out with
-    | .ok bs => hexOfStr bs
-    | .error .panic => "panic"
-    | .error .failed => "err"
-  let stored := r.stores.map (·.1)
-  let subs := subs ++ stored.filter fun k => !subs.contains k
-  (s!"{out}/{if attrHit then "-" else "A"}/{showPairs "+" r.reads}/{showPairs "-" stored}", { st with subs := subs })
-
-inductive MixOp where
-  | read (off len : Nat) (ap sp : List Char)
-  | get (present : Bool) (mode : ReadMode) (pat : List Char)
-  | exist (present : Bool) (pat : List Char)
-  | attrs (present : Bool) (pat : List Char)
-  | iter (pat : List Char)
-
 def parsePat? (s : String) : Option (List Char) :=
   if s.isEmpty || !(s.toList.all fun c => c == '0' || c == '1' || c == '2') then none else some s.toList
 
@@ -311,7 +272,147 @@ def parseMode? (s : String) : Option ReadMode :=
   if s = "f" then some .full else if s = "x" then some .exact
   else if s.startsWith "h" then (parseNat? (s.drop 1).toString).map .partialRead else none
 
-def parseMixOp? (s : String) : Option MixOp :=
+/-- one op of a history, with the patterns of its Fetch calls -/
+structure WOp where
+  op : KOp
+  pats : List (List Char)       -- one pattern per Fetch call of the op
+
+/-- a Fetch: which of the requested keys are seen (pattern 0 and stored), which are evicted (2) -/
+def fetch (c : KCache) (keys : List Str) (pat : List Char) : List Str × KCache :=
+  let keyed := keys.zipIdx.map fun (k, i) => (k, patAt pat i)
+  let seen := (keyed.filter fun (_, ch) => ch == '0').map (·.1)
+  let evicted := (keyed.filter fun (_, ch) => ch == '2').map (·.1)
+  (seen, c.filter fun e => !evicted.contains e.1)
+
+def viewOf (c : KCache) (seen : List Str) : Str → Option Val :=
+  fun ks => if seen.contains ks then c.lookup ks else none
+
+/-- the subrange keys a GetRange asks the cache for, in request order (none when the request is
+    passed to the wrapped bucket or the object is absent) -/
+def rangeKeys (w : World) (S : Nat) (name : Str) (off len : Nat) : List Str :=
+  match w.obj name with
+  | none => []
+  | some b =>
+    let size := b.length
+    if off ≥ size then [] else
+    let endPos := min (off + len) size
+    let startRange := (off / S) * S
+    let endRange := (endPos / S) * S + (if endPos % S > 0 then S else 0)
+    (offsets S startRange endRange).map fun o => keyOf .subrange name o (min (o + S) size) []
+
+def showStr (s : Str) : String := hexOfStr s
+
+def showCall : Call → String
+  | .attributes _ => "A"
+  | .getRange _ off len => s!"R{off}+{len}"
+  | .get _ => "G"
+  | .exists_ _ => "E"
+  | .iter _ _ => "I"
+
+def showKAns : Thanos.CachingBucket.Ans → String
+  | .data b => hexOfStr b
+  | .notFound => "notfound"
+  | .bool b => if b then "true" else "false"
+  | .size n => s!"size:{n}"
+  | .names l => "names:" ++ joinWith "," (l.map showStr)
+  | .failed => "err"
+  | .panic => "panic"
+
+def sortStrings (l : List String) : List String := (l.toArray.qsort (· < ·)).toList
+
+def callKey (c : Call) : Nat × Nat :=
+  match c with
+  | .getRange _ off len => (off, len)
+  | _ => (0, 0)
+
+def showRes (r : KRes) : String :=
+  let reads := (r.calls.filter fun c => match c with | .getRange .. => true | _ => false)
+  let others := (r.calls.filter fun c => match c with | .getRange .. => false | _ => true)
+  let readsSorted := sortPairs (reads.map callKey)
+  let calls := others.map showCall ++ readsSorted.map fun (a, l) => s!"R{a}+{l}"
+  let ans := match r.ans with
+    | .panic => "panic" | .failed => "err" | a => showKAns a
+  if ans == "panic" || ans == "err" then s!"{ans}/-/-" else
+  s!"{ans}/{joinWith "+" calls}/{joinWith "," (sortStrings (r.stores.map fun e => showStr e.1))}"
+
+/-- run one op: its Fetch calls with their patterns, the op itself, the stores -/
+def worldStep (w : World) (cfg : Cfg) (c : KCache) (o : WOp) : String × KCache :=
+  let pat (i : Nat) : List Char := o.pats.getD i ['0']
+  match o.op with
+  | .getRange name off len _ =>
+    let (seen1, c1) := fetch c [keyOf .attrs name 0 0 []] (pat 0)
+    -- the attributes are fetched (and stored) before the subranges are asked for
+    let a := kAttrs w name (viewOf c seen1)
+    let c2 := c1.filter (fun e => !(a.2.2.map (·.1)).contains e.1) ++ a.2.2
+    let (seen2, c3) := fetch c2 (rangeKeys w cfg.S name off len) (pat 1)
+    let view := fun ks => if ks = keyOf .attrs name 0 0 [] then viewOf c seen1 ks else viewOf c2 seen2 ks
+    let r := kStep w cfg o.op view
+    let newKeys := r.stores.map (·.1)
+    (showRes r, c3.filter (fun e => !newKeys.contains e.1) ++ r.stores)
+  | .get name _ =>
+    let (seen, c1) := fetch c [keyOf .content name 0 0 [], keyOf .exists_ name 0 0 []] (pat 0)
+    let r := kStep w cfg o.op (viewOf c seen)
+    let newKeys := r.stores.map (·.1)
+    (showRes r, c1.filter (fun e => !newKeys.contains e.1) ++ r.stores)
+  | .exists_ name =>
+    let (seen, c1) := fetch c [keyOf .exists_ name 0 0 []] (pat 0)
+    let r := kStep w cfg o.op (viewOf c seen)
+    let newKeys := r.stores.map (·.1)
+    (showRes r, c1.filter (fun e => !newKeys.contains e.1) ++ r.stores)
+  | .attributes name =>
+    let (seen, c1) := fetch c [keyOf .attrs name 0 0 []] (pat 0)
+    let r := kStep w cfg o.op (viewOf c seen)
+    let newKeys := r.stores.map (·.1)
+    (showRes r, c1.filter (fun e => !newKeys.contains e.1) ++ r.stores)
+  | .iter dir recursive =>
+    let (seen, c1) := fetch c [keyOf (if recursive then .iterRecursive else .iter) dir 0 0 w.hash] (pat 0)
+    let r := kStep w cfg o.op (viewOf c seen)
+    let newKeys := r.stores.map (·.1)
+    (showRes r, c1.filter (fun e => !newKeys.contains e.1) ++ r.stores)
+
+def worldRun (w : World) (cfg : Cfg) : List WOp → KCache → List String
+  | [], _ => []
+  | o :: os, c =>
+    let (a, c') := worldStep w cfg c o
+    a :: worldRun w cfg os c'
+
+/-- `kind:field:field…`; returns the op and, for Iter, the listing the wrapped bucket gives -/
+def parseWOp? (s : String) : Option (WOp × Option ((Str × Bool) × List Str)) :=
+  match splitChar ':' s with
+  | ["r", n, o, l, p, ap, sp] => do
+    let n ← strOfHex? n; let o ← parseNat? o; let l ← parseNat? l; let p ← parseNat? p
+    let ap ← parsePat? ap; let sp ← parsePat? sp
+    if l = 0 ∨ p = 0 then none else
+    pure (⟨.getRange n o l p, [ap, sp]⟩, none)
+  | ["g", n, m, pat] => do
+    let n ← strOfHex? n; let m ← parseMode? m; let pat ← parsePat? pat
+    pure (⟨.get n m, [pat]⟩, none)
+  | ["e", n, pat] => do
+    let n ← strOfHex? n; let pat ← parsePat? pat
+    pure (⟨.exists_ n, [pat]⟩, none)
+  | ["a", n, pat] => do
+    let n ← strOfHex? n; let pat ← parsePat? pat
+    pure (⟨.attributes n, [pat]⟩, none)
+  | ["i", d, rec, pat, listing] => do
+    let d ← strOfHex? d; let pat ← parsePat? pat
+    let rec ← if rec = "1" then some true else if rec = "0" then some false else none
+    let names ← (listOf ',' listing).mapM strOfHex?
+    pure (⟨.iter d rec, [pat]⟩, some ((d, rec), names))
+  | _ => none
+
+def parseObjects? (s : String) : Option (List (Str × Bytes)) :=
+  (listOf ',' s).mapM fun e =>
+    match splitChar '=' e with
+    | [n, b] => do
+      let n ← strOfHex? n; let b ← strOfHex? b
+      pure (n, b)
+    | _ => none
+
+/-- the old single-object histories, expressed in the general form: objects "obj" and
+    "zdir/file", absent "nope", listing of "" = ["obj", "zdir/"], config hash "h" -/
+def legacyOp? (obj : Bytes) (p : Nat) (s : String) : Option (WOp × Option ((Str × Bool) × List Str)) :=
+  let objN : Str := [111, 98, 106]
+  let nope : Str := [110, 111, 112, 101]
   let rest := (s.drop 1).toString
   match s.toList.head? with
   | some 'r' =>
@@ -319,85 +420,59 @@ def parseMixOp? (s : String) : Option MixOp :=
     | [o, l, ap, sp] => do
       let o ← parseNat? o; let l ← parseNat? l
       let ap ← parsePat? ap; let sp ← parsePat? sp
-      pure (.read o l ap sp)
+      if l = 0 then none else pure (⟨.getRange objN o l p, [ap, sp]⟩, none)
     | _ => none
   | some 'g' =>
     match splitChar ',' rest with
     | [m, pat] => do
       let m ← parseMode? m; let pat ← parsePat? pat
-      pure (.get true m pat)
+      let m := match m with | .partialRead n => .partialRead (min n obj.length) | m => m
+      pure (⟨.get objN m, [pat]⟩, none)
     | _ => none
-  | some 'G' => (parsePat? rest).map (.get false .full)
-  | some 'e' => (parsePat? rest).map (.exist true)
-  | some 'E' => (parsePat? rest).map (.exist false)
-  | some 'a' => (parsePat? rest).map (.attrs true)
-  | some 'A' => (parsePat? rest).map (.attrs false)
-  | some 'i' => (parsePat? rest).map .iter
+  | some 'G' => (parsePat? rest).map fun pat => (⟨.get nope .full, [pat]⟩, none)
+  | some 'e' => (parsePat? rest).map fun pat => (⟨.exists_ objN, [pat]⟩, none)
+  | some 'E' => (parsePat? rest).map fun pat => (⟨.exists_ nope, [pat]⟩, none)
+  | some 'a' => (parsePat? rest).map fun pat => (⟨.attributes objN, [pat]⟩, none)
+  | some 'A' => (parsePat? rest).map fun pat => (⟨.attributes nope, [pat]⟩, none)
+  | some 'i' => (parsePat? rest).map fun pat =>
+      (⟨.iter [] false, [pat]⟩, some (([], false), [objN, [122, 100, 105, 114, 47]]))
   | _ => none
 
-def showAns : Ans → String
-  | .data b => hexOfStr b
-  | .notFound => "notfound"
-  | .bool b => if b then "true" else "false"
-  | .size n => s!"size:{n}"
-  | .names l => "names:" ++ ",".intercalate (l.map fun k => if k = 0 then "obj" else "zdir/")
-
-/-- what a Fetch pattern does to one entry: is it seen, does it survive -/
-def seen (pat : List Char) (i : Nat) : Bool := patAt pat i == '0'
-def evict (pat : List Char) (i : Nat) : Bool := patAt pat i == '2'
-
-def showOp (r : OpRes) : String := s!"{showAns r.ans}/{if r.calls.isEmpty then "-" else "+".intercalate r.calls}"
-
-def mixStep (obj : Bytes) (S maxSub p maxGet : Nat) (st : CBState) : MixOp → String × CBState
-  | .read o l ap sp =>
-    -- an evicted attributes entry is forgotten before it is (fetched and) stored again
-    cbRead true obj S maxSub p st o l ap sp
-  | .get present mode pat =>
-    -- Fetch([content, exists]): an evicted entry is forgotten at fetch time
-    let c := if present then st.oc else st.mc
-    let c := { c with content := if evict pat 0 then none else c.content,
-                      exist := if evict pat 1 then none else c.exist }
-    let r := opGet (if present then some obj else none) maxGet mode (seen pat 0) (seen pat 1) c
-    (showOp r, if present then { st with oc := r.cache } else { st with mc := r.cache })
-  | .exist present pat =>
-    let c := if present then st.oc else st.mc
-    let c := if evict pat 0 then { c with exist := none } else c
-    let r := opExists (if present then some obj else none) (seen pat 0) c
-    (showOp r, if present then { st with oc := r.cache } else { st with mc := r.cache })
-  | .attrs present pat =>
-    let c := if present then st.oc else st.mc
-    let c := if evict pat 0 then { c with attrs := none } else c
-    let r := opAttributes (if present then some obj else none) (seen pat 0) c
-    (showOp r, if present then { st with oc := r.cache } else { st with mc := r.cache })
-  | .iter pat =>
-    let c := if evict pat 0 then { st.oc with iter := none } else st.oc
-    let r := opIter [0, 1] (seen pat 0) c
-    (showOp r, { st with oc := r.cache })
-
-def mixRun (obj : Bytes) (S maxSub p maxGet : Nat) : List MixOp → CBState → List String
-  | [], _ => []
-  | op :: ops, st =>
-    let (a, st') := mixStep obj S maxSub p maxGet st op
-    a :: mixRun obj S maxSub p maxGet ops st'
+def runWorld (objs : List (Str × Bytes)) (hash : Str) (cfg : Cfg)
+    (ops : List (WOp × Option ((Str × Bool) × List Str))) : String :=
+  let listings := ops.filterMap (·.2)
+  let w : World := ⟨objs, fun d r => ((listings.lookup (d, r)).getD []), hash⟩
+  ";".intercalate (worldRun w cfg (ops.map (·.1)) [])
 
 def handleC14 : List String → Option String
   | ["cb.hist", obj, S, maxSub, p, ops] => do
     let obj ← strOfHex? obj
-    let S ← parseNat? S
-    let maxSub ← parseNat? maxSub
-    let p ← parseNat? p
-    let ops ← (splitChar ';' ops).mapM parseMixOp?
+    let S ← parseNat? S; let maxSub ← parseNat? maxSub; let p ← parseNat? p
     if S = 0 ∨ p = 0 then none else
-    pure (";".intercalate (mixRun obj S maxSub p 0 ops ⟨.empty, .empty, []⟩))
+    let ops ← (splitChar ';' ops).mapM (legacyOp? obj p)
+    pure (runWorld [([111, 98, 106], obj), ([122, 100, 105, 114, 47, 102, 105, 108, 101], [120])] [104] ⟨S, maxSub, 0⟩ ops)
   | ["cb.mix", obj, S, maxSub, p, maxGet, ops] => do
     let obj ← strOfHex? obj
-    let S ← parseNat? S
-    let maxSub ← parseNat? maxSub
-    let p ← parseNat? p
-    let maxGet ← parseNat? maxGet
-    let ops ← (splitChar ';' ops).mapM parseMixOp?
+    let S ← parseNat? S; let maxSub ← parseNat? maxSub; let p ← parseNat? p; let maxGet ← parseNat? maxGet
     if S = 0 ∨ p = 0 then none else
-    pure (";".intercalate (mixRun obj S maxSub p maxGet ops ⟨.empty, .empty, []⟩))
+    let ops ← (splitChar ';' ops).mapM (legacyOp? obj p)
+    pure (runWorld [([111, 98, 106], obj), ([122, 100, 105, 114, 47, 102, 105, 108, 101], [120])] [104] ⟨S, maxSub, maxGet⟩ ops)
+  | ["cb.world", S, maxSub, maxGet, hash, objs, ops] => do
+    let S ← parseNat? S; let maxSub ← parseNat? maxSub; let maxGet ← parseNat? maxGet
+    let hash ← strOfHex? hash
+    let objs ← parseObjects? objs
+    if S = 0 then none else
+    let ops ← (splitChar ';' ops).mapM parseWOp?
+    pure (runWorld objs hash ⟨S, maxSub, maxGet⟩ ops)
+  | ["cb.key", verb, name, start, stop, hash] => do
+    let verb ← match verb with
+      | "0" => some Verb.exists_ | "1" => some Verb.content | "2" => some Verb.iter
+      | "3" => some Verb.iterRecursive | "4" => some Verb.attrs | "5" => some Verb.subrange | _ => none
+    let name ← strOfHex? name
+    let start ← parseNat? start
+    let stop ← parseNat? stop
+    let hash ← strOfHex? hash
+    pure (hexOfStr (bucketKeyString ⟨verb, name, start, stop, hash⟩))
   | _ => none
 end C14
 
